@@ -6,6 +6,9 @@ mod c06;
 mod c07;
 mod errs;
 mod pathmap;
+mod ioinst;
+mod iofault;
+mod reader;
 mod pump;
 mod tyseed;
 mod e2e;
@@ -52,6 +55,8 @@ fn main() {
         ("bombs", m) => bombs::run(m, &a),
         ("pathmap", m) => pathmap::run(m, &a),
         ("robotics", m) => robotics::run(m, &a),
+        ("iofault", m) => iofault::run(m, &a),
+        ("reader", m) => reader::run(m, &a),
         _ => { eprintln!("unknown area/mode"); 2 }
     };
     std::process::exit(code);
